@@ -74,6 +74,10 @@ def units(tier, seed):
     for k in range(2):
         u.append(dict(task="detection", ego=1, str_frame=True, policy="DEFAULT", mgr="wide", crit="ring", kmax_e=2, chunk=[k, 2]))
     u.append(dict(task="tracking", ego=1, str_frame=True, policy="DEFAULT", mgr="wide", crit="box_per_label", pattern="swap"))
+    # a minimum point count at the manager level, sparse ground truths, and the ego-frame frame built WITHOUT a transform table (what a
+    # caller that works in the ego frame hands over)
+    for k in range(2):
+        u.append(dict(task="detection", ego=1, minpts=True, policy="DEFAULT", mgr="wide", crit="box_per_label", kmax_e=2, chunk=[k, 2]))
     # slightly tilted boxes (pitch / roll of 1-3 degrees) seen from a level ego whose map height is 612 m / -45 m (terrain elevation)
     for he in range(len(HIGH_EGOS)):
         for k in range(2):
@@ -142,6 +146,9 @@ def run_unit(unit, acc):
                 c["ego_override"] = unit["ego_override"]
             if unit.get("str_frame"):
                 c["str_frame"] = True
+            if unit.get("minpts"):
+                c["minpts"] = True
+                c["gts"] = [dict(s_, pts=2 if j % 2 == 0 else 10) for j, s_ in enumerate(c["gts"])]
             if unit.get("tilt"):
                 c["ego_override"] = unit["ego_override"]
                 c["tilt"] = True
@@ -400,6 +407,8 @@ def check_case(case, acc):
     base_ego = tuple(case["ego_override"]) if case.get("ego_override") else G.ego_menu(case.get("seed", 0))[case["ego_index"]]
     nframes = 3 if tracking else 1
     ov = dict(MGR[case["mgr"]][0], matching_label_policy=case["policy"], **METRICS)
+    if case.get("minpts"):
+        ov["min_point_numbers"] = [6, 6]
     runs = {}
     skipped = None
     per_frame_specs = []
@@ -417,6 +426,21 @@ def check_case(case, acc):
     if skipped:
         acc.skip("boundary:" + skipped)
         return
+    if case.get("minpts"):
+        # the filter seam itself: ego-frame objects filtered without any transform table against the same scene in the map frame
+        from perception_eval.common.label import AutowareLabel
+        from perception_eval.evaluation.matching.objects_filter import filter_objects
+        es0, gs0 = per_frame_specs[0]
+        kept = {}
+        for rendering in ("base_link", "map"):
+            objs = [G.mk3d(dict(s, t=100), rendering, base_ego) for s in gs0]
+            acc.exec()
+            out_ = filter_objects(objs, True, target_labels=[AutowareLabel.CAR, AutowareLabel.PEDESTRIAN], max_x_position_list=[100.0, 100.0],
+                                  max_y_position_list=[100.0, 100.0], min_point_numbers=[6, 6], transforms=None if rendering == "base_link" else G.transforms(base_ego))
+            kept[rendering] = sorted(o.uuid for o in out_)
+        if kept["base_link"] != kept["map"]:
+            acc.violation("ego-vs-map:filter-seam", "filter_objects with a minimum point count keeps %s of the ego-frame ground truths (no transform table) and %s of the same "
+                          "scene in the map frame" % (kept["base_link"], kept["map"]), case)
     for rendering in ("base_link", "map"):
         m = F.manager(case["task"], rendering, ov)
         m.frame_results = []
@@ -429,7 +453,11 @@ def check_case(case, acc):
                 for o in ests + gts:
                     o.frame_id = "map"
             acc.exec()
-            fr = m.add_frame_result(100 + k, F.frame_gt(gts, ego, 100 + k, str(k)), ests, F.crit_config(m.evaluator_config, S.CRIT[case["crit"]]),
+            fgt = F.frame_gt(gts, ego, 100 + k, str(k))
+            if case.get("minpts") and rendering == "base_link":
+                from perception_eval.common.dataset import FrameGroundTruth
+                fgt = FrameGroundTruth(100 + k, str(k), list(gts), transforms=None)
+            fr = m.add_frame_result(100 + k, fgt, ests, F.crit_config(m.evaluator_config, S.CRIT[case["crit"]]),
                                     F.pf_config(m.evaluator_config, S.THR["per_label"]))
             outs.append(_summ(fr, tracking))
         acc.exec()
@@ -440,7 +468,7 @@ def check_case(case, acc):
     a, b = runs["base_link"], runs["map"]
     last = a[-2]
     acc.state((case["task"], case["policy"], case["mgr"], case["crit"], case["ego_index"], tuple(case.get("ego_override") or ()), bool(case.get("str_frame")),
-               bool(case.get("tilt")), case.get("pattern"),
+               bool(case.get("tilt")), bool(case.get("minpts")), case.get("pattern"),
                tuple(last["pairs"]), tuple(last["tp"]), tuple(last["fn"]), tuple(last["critical_gt"])),
               nontrivial=len(last["critical_gt"]) < len(case["gts"]) or len(last["pairs"]) < len(case["ests"]) or bool(last["fp"]) or bool(last["fn"]))
     acc.outcome((tuple(last["tp"]), tuple(last["fp"]), tuple(last["fn"])))
